@@ -30,6 +30,8 @@ PROPERTY StopSticky
 PROPERTY DoneIsFinal
 PROPERTY RaiseStops
 PROPERTY FlagPerProcess
+PROPERTY PbpOneThread
 ACTION_CONSTRAINT EmitTransition
+CONSTRAINT NbkShape
 VIEW View
 CHECK_DEADLOCK FALSE
